@@ -79,6 +79,24 @@ pub fn run(out: &mut Out, _tier: &str, _seed: u64) {
         jobs.push((format!("moved_{}_{}_{}", c, pm, lm), program(c, pm, lm, "let _q = p.munlock(); let _r = p.munlock();"), format!("moved {} {} {}", c, pm, lm), false));
         if pm != 2 { jobs.push((format!("moved_view_{}_{}_{}", c, pm, lm), program(c, pm, lm, "let _q = p.mprotect_readonly(); let _ = p.as_slice();"), format!("moved-view {} {} {}", c, pm, lm), false)); }
     } } }
+    // every permitted transition gives a region of exactly the type state its name says (and of no other)
+    {
+        let cont = |c: usize| if c == 1 { "HeapBytes" } else { "HeapByteArray<32>" };
+        let (pms, lms) = (["ReadWrite", "ReadOnly", "NoAccess"], ["Unlocked", "Locked"]);
+        let tprog = |c: usize, pm: usize, lm: usize, call: &str, tpm: usize, tlm: usize| format!(
+            "#![feature(allocator_api)]\n#![allow(unused)]\nuse dryoc::protected::*;\nuse dryoc::protected::traits as tr;\nuse dryoc::types::*;\nfn check(p: Protected<{c}, tr::{}, tr::{}>) -> Result<Protected<{c}, tr::{}, tr::{}>, std::io::Error> {{ p.{}() }}\nfn main() {{}}\n",
+            pms[pm], lms[lm], pms[tpm], lms[tlm], call, c = cont(c));
+        for c in 1..=2usize { for pm in 0..3usize { for lm in 0..2usize {
+            for (op, call) in [(6usize, "mlock"), (7, "munlock"), (8, "mprotect_readonly"), (9, "mprotect_readwrite"), (10, "mprotect_noaccess")] {
+                if !permitted(c, pm, lm, op) { continue; }
+                let (tpm, tlm) = match op { 6 => (pm, 1), 7 => (pm, 0), 8 => (1, lm), 9 => (0, lm), _ => (2, lm) };
+                jobs.push((format!("target_{}_{}_{}_{}", c, pm, lm, op), tprog(c, pm, lm, call, tpm, tlm), format!("target {} {} {} {}", c, pm, lm, op), true));
+                // the same call must not type-check as a different protection state
+                let wrong = (tpm + 1) % 3;
+                jobs.push((format!("wrong_target_{}_{}_{}_{}", c, pm, lm, op), tprog(c, pm, lm, call, wrong, tlm), format!("wrong-target {} {} {} {}", c, pm, lm, op), false));
+            }
+        } } }
+    }
     // streams
     let sp = |mode: &str, body: &str| format!("#![allow(unused)]\nuse dryoc::dryocstream::*;\nfn check(mut s: DryocStream<{}>) {{ {} }}\nfn main() {{}}\n", mode, body);
     jobs.push(("stream_push_on_push".into(), sp("Push", "let _ = s.push_to_vec(&vec![0u8; 4], None::<&Vec<u8>>, Tag::MESSAGE);"), "stream 0 0".into(), true));
@@ -101,7 +119,7 @@ pub fn run(out: &mut Out, _tier: &str, _seed: u64) {
         out.search_evaluations += 1;
         for c in codes { *codes_seen.entry(c.clone()).or_insert(0) += 1; }
         if *ok != *want {
-            let sig = if *ok { if name.starts_with("stream") { "typestate.stream-misuse-compiles" } else if name.starts_with("moved") { "typestate.use-after-transition-compiles" } else { "typestate.forbidden-access-compiles" } } else { "typestate.permitted-program-rejected" };
+            let sig = if name.starts_with("target") || name.starts_with("wrong_target") { "typestate.transition-gives-another-state" } else if *ok { if name.starts_with("stream") { "typestate.stream-misuse-compiles" } else if name.starts_with("moved") { "typestate.use-after-transition-compiles" } else { "typestate.forbidden-access-compiles" } } else { "typestate.permitted-program-rejected" };
             out.hit(sig, format!("{}: compiles = {}, the table says {} ({:?})", name, ok, want, codes), json!({"op":"typestate.program","name":name,"source":src,"compiles":ok,"expected":want,"errors":codes}));
         }
         let f: Vec<&str> = args.split(' ').collect();
